@@ -104,6 +104,12 @@ def grid_spec(rng, tier, force=None):
         r = 0.9
     elif force == "embedded":
         r = rng.choice([0.1, 0.5, 0.5])
+    elif force == "embedded_line":
+        r = 0.1
+    elif force == "embedded_tri":
+        r = 0.5
+    if force in ("embedded_line", "embedded_tri"):
+        force = "embedded"
     if r < 0.3:
         n = rng.randint(1, 6)
         x = [rng.choice([0.0, -1.0, 0.5])]
@@ -234,9 +240,11 @@ class C18(Prop):
     rule = ("grids: 1-D TensorGrid (1-6 cells, uneven dyadic spacing), StructuredTriangleGrid, "
             "small Delaunay TetrahedralGrids and StructuredTetrahedralGrid (at most 18 faces: cost of the exact elimination), half of the 2-D/3-D grids with dyadic node offsets, 45% of the "
             "1-D/2-D grids rotated out of their coordinate plane (axis with rational direction); RT0 "
-            "and MVEM alternate; constant permeability: directed streams give 3-D grids a FULL tensor (all "
-            "off-diagonals non-zero, kyy != kzz) and tilted embedded grids a transversely isotropic tensor "
-            "(kxx == kyy != kzz), otherwise isotropic / diagonal / full SPD; linear pressure with small integer gradient; non-trivial = at least 2 cells and a "
+            "and MVEM alternate; constant permeability: directed streams (period 8) give 3-D grids a FULL "
+            "tensor (all off-diagonals non-zero, kyy != kzz), 1-D grids on inclined lines in generic "
+            "position and tilted 2-D grids a FULL tensor (kxy, kxz, kyz non-zero) for both RT0 and MVEM, and "
+            "tilted embedded grids a transversely isotropic tensor (kxx == kyy != kzz), otherwise "
+            "isotropic / diagonal / full SPD; linear pressure with small integer gradient; non-trivial = at least 2 cells and a "
             "non-zero gradient")
     trusted = ["the assembled matrix, the four right-hand sides (assemble_matrix_rhs called with the boundary "
                "values of x, y, z, 1) and the dense mass matrix are converted with Fraction(float)",
@@ -251,19 +259,29 @@ class C18(Prop):
 
     def generate(self, rng, n, tier):
         for i in range(n):
-            # directed streams: i % 6 in (0, 3): 3-D grid with a full tensor (RT0 / MVEM);
-            # i % 6 in (1, 4): tilted embedded grid with a transversely isotropic tensor (MVEM / RT0)
-            streams = {0: "tet", 3: "tet", 1: "embedded", 4: "embedded"}
-            spec, dim = grid_spec(rng, tier, force=streams.get(i % 6))
+            # directed streams (period 8, the method alternates with i): 0: 3-D grid, full tensor, RT0;
+            # 1 / 4: 1-D grid on an inclined line in generic position, FULL tensor (kxy, kxz, kyz all
+            # non-zero), MVEM / RT0; 2 / 3: tilted 2-D grid, full tensor, RT0 / MVEM (3-D MVEM instead in
+            # the thorough tier on every other round); 5 / 6: tilted grid, transversely isotropic
+            # tensor kxx == kyy != kzz, MVEM / RT0; 7: free
+            stream = i % 8
+            streams = {0: "tet", 1: "embedded_line", 2: "embedded_tri", 3: "embedded_tri", 4: "embedded_line",
+                       5: "embedded", 6: "embedded"}
+            if tier != "quick" and i % 16 == 3:
+                streams[3] = "tet"
+            spec, dim = grid_spec(rng, tier, force=streams.get(stream))
             planar = not spec.get("rot")
-            stream = i % 6
+            full_spd = lambda: {"kxx": rng.choice([1.0, 2.0, 1.5]), "kyy": rng.choice([1.0, 3.0]),
+                                "kzz": rng.choice([2.0, 1.5]), "kxy": rng.choice([0.25, -0.25, 0.125]),
+                                "kxz": rng.choice([0.125, -0.25, 0.25]), "kyz": rng.choice([0.125, -0.125, 0.25])}
             k = {"kxx": rng.choice([0.5, 1.0, 2.0, 1.5])}
             if dim == 3 and (stream in (0, 3) or rng.random() < 0.5):
                 # full SPD tensor, every off-diagonal non-zero, kyy != kzz (diagonally dominant)
-                k = {"kxx": rng.choice([1.0, 2.0, 1.5]), "kyy": rng.choice([1.0, 3.0]), "kzz": rng.choice([2.0, 1.5]),
-                     "kxy": rng.choice([0.25, -0.25, 0.125]), "kxz": rng.choice([0.125, -0.25, 0.25]),
-                     "kyz": rng.choice([0.125, -0.125, 0.25])}
-            elif not planar and (stream in (1, 4) or rng.random() < 0.4):
+                k = full_spd()
+            elif not planar and stream in (1, 2, 3, 4):
+                # embedded grid in generic position, full SPD tensor with non-zero kxz, kyz
+                k = full_spd()
+            elif not planar and (stream in (5, 6) or rng.random() < 0.4):
                 # tilted embedded grid, transversely isotropic tensor kxx == kyy != kzz
                 kk = rng.choice([0.5, 1.0, 2.0])
                 k = {"kxx": kk, "kyy": kk, "kzz": kk * rng.choice([0.25, 0.5, 2.0, 4.0])}
@@ -280,8 +298,10 @@ class C18(Prop):
                     k["kxz"] = rng.choice([0.0, 0.125, -0.125])
                     k["kyz"] = rng.choice([0.0, 0.125, -0.25])
             a = [rng.randint(-3, 3) for _ in range(3)]
-            if rng.random() < 0.1:
+            if stream == 7 and rng.random() < 0.3:
                 a = [0, 0, 0]
+            elif stream != 7 and not any(a):
+                a = [1, -2, 3]
             yield {"grid": spec, "method": "rt0" if i % 2 == 0 else "mvem", "k": k,
                    "a": a, "c0": rng.randint(-4, 4)}
 
